@@ -85,13 +85,13 @@ func genLimit(prop string, r *simrt.SplitMix) *LimitSc {
 	case 2:
 		n = q
 	case 3:
-		n = q * between(r, 1, 4)
+		n = q * between(r, 1, 4*scale)
 	default:
-		n = q*between(r, 0, 4) + between(r, 0, q)
+		n = q*between(r, 0, 4*scale) + between(r, 0, q)
 	}
 
-	if n > 160 {
-		n = 160
+	if n > 160*scale {
+		n = 160 * scale
 	}
 
 	if (prop == "C12" || prop == "C19" || prop == "C20") && r.Intn(2) == 0 {
